@@ -16,10 +16,11 @@ check("C01", "model_checking",
       "trace validated against FragTrace.tla (no packet larger than the buffer offered for it, contiguous extents, "
       "receive buffer never beyond capacity). The public API is exercised on the os, memfd and in-process builds "
       "with a seeded family of serde values (floats by bit pattern) and byte payloads at the same boundaries "
-      "(thorough: random lengths up to 64 MiB).",
-      "Lengths other than the boundary sets are sampled, not enumerated; bincode is trusted for value<->bytes; "
+      "(thorough: random lengths up to 64 MiB). spec/apalache/FragInd.tla restates the two loops over integers with an "
+      "inductive invariant that Apalache discharges for every message length and send-buffer size >= 1000.",
+      "Lengths other than the boundary sets are sampled in the replay (the inductive invariant covers them in the model only); bincode is trusted for value<->bytes; "
       "send-buffer sizes below the default come from the override hook; macOS/Windows back-ends do not build here.",
-      "TLC model checking of Frag.tla + replay of TLC behaviours + TLC trace validation + API round trips on three builds",
+      "TLC model checking of Frag.tla + Apalache inductive invariant + replay of TLC behaviours + TLC trace validation + API round trips on three builds",
       "DESIGN.md 3.2, 6 (C01)")
 check("C15", "model_checking",
       "Frag.tla's OverfullRefused/NoMangle/AcceptedArrives are model-checked with the control-buffer capacity the "
@@ -38,7 +39,9 @@ check("C03", "model_checking",
       "simulates longer ones (up to 60 operations, 6 channels); each behaviour, ending in a probe/drain epilogue, is "
       "replayed through the real crate with agent 1 as a thread or a spawned process, comparing every result. For every "
       "operation that the model says disconnects an idle receiver, a receive (blocking or 15 s timed) is parked on that "
-      "receiver first and must wake up with 'disconnected'.",
+      "receiver first and must wake up with 'disconnected'. UnixHandles.tla (descriptor view: clones sharing a descriptor, "
+      "references in flight, cascading destruction of queues, process exit) is checked by TLC to agree with the handle "
+      "view in every reachable state.",
       "Acyclic channel families; bounded histories; the racing half is forced in one order (receiver already blocked); "
       "macOS/Windows unbound.",
       "TLC exhaustive + simulation of Channels.tla, behaviours replayed through the API with per-step comparison",
@@ -66,9 +69,11 @@ check("C09", "model_checking",
       "which the receiver, its carrier queue or its whole process disappears at every point relative to sends of small and "
       "multi-packet messages with and without attachments are enumerated/simulated by TLC and replayed with SIGPIPE at its "
       "default disposition in every harness process; a send must return exactly the model's ok/err, never kill the process "
-      "or block (20 s watchdog).",
+      "or block (20 s watchdog). Transport.tla with RecvDrop: the receiving end is dropped at every point inside a stream "
+      "of multi-packet sends from threads/processes; gated schedules must give exactly the model's send results "
+      "(NoFalseSuccess). UnixHandles.tla: the kernel's EPIPE condition agrees with 'the receiving end exists nowhere'.",
       "Acyclic families; error *codes* are not compared; macOS/Windows unbound.",
-      "TLC exhaustive + simulation of Channels.tla, behaviours replayed through the API with per-step comparison",
+      "TLC exhaustive + simulation of Channels.tla replayed through the API + TLC model checking of Transport.tla with gated replay of receiver-drop schedules",
       "DESIGN.md 3.5, 6 (C09)")
 check("C14", "model_checking",
       "SideTables.tla models the per-thread attachment tables of ipc.rs as a machine of frames (take tables, visit "
@@ -114,10 +119,13 @@ check("C10", "model_checking",
       "BlockingNeverEmpty, no missed message, for plans mixing recv/try_recv/try_recv_timeout against senders that send "
       "1..3 packets or just drop, before/during/after each call (exhaustive in TLC). Schedules are replayed with gating; a "
       "timed receive that the model ends by readiness gets 8 s and must return early (<6 s), one that the model lets expire gets "
-      "0..20 ms and must not say 'empty' before floor(d) ms; a try_recv observed asleep in the kernel is a violation.",
+      "0..20 ms and must not say 'empty' before floor(d) ms; a try_recv observed asleep in the kernel is a violation. "
+      "Second stage: every Channels.tla behaviour (<=3-4 operations, plus random walks) that contains a try_recv or "
+      "try_recv_timeout is replayed sequentially and each result compared - this stage does not depend on which system "
+      "calls the transport makes.",
       "Timing uses the receiving thread's own monotonic clock only; durations up to 8 s; the mutant RestoreBlocking=FALSE "
       "violates BlockingRestored in the model.",
-      "TLC exhaustive model checking of Transport.tla + gated replay with timing floors",
+      "TLC exhaustive model checking of Transport.tla + gated replay with timing floors + replay of Channels.tla behaviours at call level",
       "DESIGN.md 3.3, 6 (C10)")
 check("C12", "fault_enumeration",
       "Transport.tla with Kill(s) enabled between any two system calls of a sender process (exhaustive in TLC, shapes up "
@@ -146,12 +154,12 @@ check("C07", "model_checking",
       "Router.tla (proxy mutex, crossbeam message queue, wake-up channel, router thread taking one message per wake-up, "
       "dispatch) is checked exhaustively by TLC for routes registered from 2 proxy threads while messages are queued or in "
       "flight and senders drop anywhere: RouteOnceInOrder, DroppedOnce, DroppedAfterLast, AllDispatched. Seeded free-running "
-      "scenarios (1..6 routes, callback and crossbeam-forwarding, 1..3 registering threads, 0..5 messages per route, some "
-      "queued before registration) are recorded through the router.rs hooks and harness events, and every recorded step is "
+      "scenarios (1..6 routes, callback and crossbeam-forwarding, 1..3 registering threads, 0..50 messages per route, some "
+      "queued before registration; every fourth with a slow handler, bursts on installed routes and late registrations) are recorded through the router.rs hooks and harness events, and every recorded step is "
       "validated by TLC against RouterTrace.tla (own handler, next message of that route, closure only when disconnected "
       "and drained, exactly one drop per callback); the harness also compares final per-route deliveries.",
       "Interleavings of the real run are those the scheduler (with seeded jitter) produces, not forced ones; 32 routes / 8 "
-      "threads / 50 messages of the property text are scaled to 6 / 3 / 5 per scenario, many scenarios.",
+      "threads of the property text are scaled to 6 / 3 per scenario, many scenarios.",
       "TLC exhaustive model checking of Router.tla + TLC trace validation of recorded executions (RouterTrace.tla)",
       "DESIGN.md 3.7, 6 (C07)")
 check("C17", "model_checking",
